@@ -144,6 +144,7 @@ func parseStrace(logPath, dir, target string, canonical bool) (ops []FsOp, realN
 		return c, true
 	}
 	fds := map[int]string{}
+	dirFds := map[int]bool{}
 	for _, c := range calls {
 		m := reCall.FindStringSubmatch(c)
 		if m == nil {
@@ -166,6 +167,13 @@ func parseStrace(logPath, dir, target string, canonical bool) (ops []FsOp, realN
 			} else if name == "creat" && len(args) >= 1 {
 				path, flags = string(unhex(args[0])), "O_CREAT|O_WRONLY|O_TRUNC"
 			}
+			if filepath.Clean(path) == filepath.Clean(dir) {
+				// the data directory itself: a later fsync of it is behaviour (directory durability) and is recorded
+				fds[ret] = "."
+				dirFds[ret] = true
+				continue
+			}
+			delete(dirFds, ret)
 			n, ok := canon(path)
 			if !ok {
 				delete(fds, ret)
@@ -208,8 +216,11 @@ func parseStrace(logPath, dir, target string, canonical bool) (ops []FsOp, realN
 				continue
 			}
 			if n, ok := fds[fd]; ok {
-				ops = append(ops, FsOp{Kind: "close", A: n})
+				if !dirFds[fd] {
+					ops = append(ops, FsOp{Kind: "close", A: n})
+				}
 				delete(fds, fd)
+				delete(dirFds, fd)
 			}
 		case "rename", "renameat", "renameat2":
 			var a, b string
